@@ -380,10 +380,24 @@ class ClientDriver(ReorgDriver):
         self._when(op, go)
 
     def op_c_query(self, op):
+        state = dict(i=0)
+
         def go():
             c = self.client(op['c'])
             if self.ensure_connected(c):
-                self.send_query(c, op)
+                if 'rep' in op and 'back' in op:
+                    # a storm keeps asking about the height it started with (the daemon's height moves), and
+                    # about the transactions of every block the daemon has ever had there in turn
+                    if 'h' not in state:
+                        state['h'] = max(0, self.w.daemon.height - op['back'])
+                        state['first'] = self.blocks_at(state['h']).index(self.w.daemon.chain()[state['h']])
+                    # op['alt'] == 'first': only transactions of the block that was there when the storm began
+                    # (once it is replaced these requests are refused before they reach any cache)
+                    self.send_query(c, dict(op, hfix=state['h'],
+                                            alt=state['first'] if op.get('alt') == 'first' else state['i']))
+                    state['i'] += 1
+                else:
+                    self.send_query(c, op)
         self._when(op, go)
         # a storm: the same request repeated at short intervals, so that one of them lands inside a narrow
         # window (between a block being advanced / backed up in memory and its flush)
@@ -396,7 +410,8 @@ class ClientDriver(ReorgDriver):
         if m in ('get_history', 'get_balance', 'listunspent', 'get_mempool'):
             c.send('blockchain.scripthash.' + m, [SH_ALL[op['s'] % len(SH_ALL)]])
         elif m == 'id_from_pos':
-            h = max(0, d.height - op['back']) if 'back' in op else op['h'] % (d.height + 3)
+            h = op['hfix'] if 'hfix' in op else \
+                max(0, d.height - op['back']) if 'back' in op else op['h'] % (d.height + 3)
             pos, merkle = op.get('pos', 0), bool(op.get('merkle'))
             c.send('blockchain.transaction.id_from_pos', [h, pos, merkle],
                    cb=(lambda rec: self.judge_inflight_tx_proof(rec, h, pos, None)) if merkle else None)
@@ -404,9 +419,25 @@ class ClientDriver(ReorgDriver):
             chain = d.chain()
             h = max(0, d.height - op['back']) if 'back' in op else op['h'] % len(chain)
             txs = chain[h].txs
+            if 'hfix' in op:
+                h = op['hfix']
+                alts = self.blocks_at(h)
+                txs = alts[op['alt'] % len(alts)].txs
             t = txs[op.get('pos', 0) % len(txs)]
             c.send('blockchain.transaction.get_merkle', [hex_hash(t.hash), h],
                    cb=lambda rec: self.judge_inflight_tx_proof(rec, h, None, t.hash))
+        elif m == 'get_tsc_merkle':
+            chain = d.chain()
+            h = max(0, d.height - op['back']) if 'back' in op else op['h'] % len(chain)
+            txs = chain[h].txs
+            if 'hfix' in op:
+                h = op['hfix']
+                alts = self.blocks_at(h)
+                txs = alts[op['alt'] % len(alts)].txs
+            t = txs[op.get('pos', 0) % len(txs)]
+            tt = ['block_hash', 'block_header', 'merkle_root'][op.get('tt', 0) % 3]
+            c.send('blockchain.transaction.get_tsc_merkle', [hex_hash(t.hash), h, 'txid', tt],
+                   cb=lambda rec: self.judge_inflight_tsc_proof(rec, h, t.hash, tt))
         elif m == 'header':
             cp = op.get('cp', 0)
             cpv = (cp % (d.height + 2) or d.height) if cp else 0     # mostly a valid checkpoint, sometimes tip+1
@@ -441,6 +472,31 @@ class ClientDriver(ReorgDriver):
         self.violate('C11', 'inflight.tx_proof', f'proof for height {h} pos {pos} returned while the chain may '
                      'have been changing folds to no merkle root of any block ever served at that height with that '
                      'transaction at that position')
+
+    def judge_inflight_tsc_proof(self, rec, h, txid, tt):
+        if 'result' not in rec or rec.get('closed'):
+            return
+        res = rec['result']
+        self.probe('c11.inflight_tsc_proofs')
+        try:
+            cur, idx = txid, res['index']
+            for node in res['nodes']:
+                sib = cur if node == '*' else bytes.fromhex(node)[::-1]
+                if node == '*' and idx & 1:
+                    raise ValueError('duplicate marker on a right-hand node')
+                cur = dsha(sib + cur) if idx & 1 else dsha(cur + sib)
+                idx >>= 1
+        except (ValueError, TypeError, KeyError):
+            cur = None
+        for b in self.blocks_at(h):
+            pos = res.get('index')
+            if isinstance(pos, int) and pos < len(b.txs) and b.txs[pos].hash == txid and \
+                    b.header[36:68] == cur and res.get('txOrId') == hex_hash(txid) and res.get('target') == dict(
+                        block_hash=b.hex, block_header=b.header.hex(),
+                        merkle_root=hex_hash(b.header[36:68]))[tt]:
+                return
+        self.violate('C11', 'inflight.tsc_proof', f'TSC proof for height {h} (target {tt}) returned while the '
+                     'chain may have been changing matches no block ever served at that height')
 
     def judge_inflight_header_proof(self, rec, h, cp):
         if 'result' not in rec or rec.get('closed'):
@@ -1017,6 +1073,9 @@ class StaleFamily(SubsFamily):
         if rng.random() < 0.5:
             k['stall_boost'] = (rng.choice(['fs_tx_hashes_at_blockheight', 'read_history', 'read_headers',
                                             'read_utxos', 'lookup_hashXs', 'lookup_utxos']), 0.5)
+            if rng.random() < 0.6:
+                # only reads done on behalf of client requests are slow: the block processor overtakes them
+                k['stall_boost'] += ('RPCSession',)
         nclients = rng.randint(1, 2)
         for c in range(nclients):
             plan.append(dict(op='c_connect', c=c))
@@ -1070,6 +1129,37 @@ class StaleFamily(SubsFamily):
 class ProofsFamily(StaleFamily):
     name = 'proofs'
     fam = 'proofs'
+
+    def gen(self, rng, tier, prop):
+        case = super().gen(rng, tier, prop)
+        if rng.random() < 0.3:
+            # motif: blocks of >= 200 transactions (the session manager keeps an incremental merkle cache per
+            # such height), proof requests of all kinds for them in flight - parked on slow header / hash
+            # reads - while a fork replaces them with other large blocks
+            k, plan = case['knobs'], case['plan']
+            nclients = 1 + max([op['c'] for op in plan if 'c' in op] or [0])
+            k['stall_boost'] = (rng.choice(['read_headers', 'fs_tx_hashes_at_blockheight', 'read_headers']),
+                                rng.choice([0.4, 0.8]), 'RPCSession')
+            k['stall_p'] = 0.0      # only reads on behalf of client requests are slow: the reorg overtakes them
+            d = rng.choice([1, 1, 2])
+            big = lambda: rng.randint(200, 270)     # noqa: E731
+            plan.append(dict(op='mine', n=d, ntx=[big() for _ in range(d)], seed=rng.getrandbits(32)))
+            plan.append(dict(op='settle'))
+            tq = round(rng.uniform(0.3, 3.0), 2)
+            for _ in range(rng.randint(1, 3)):
+                # storms start a little before the fork and go on until the server has dealt with it; mostly
+                # they ask only about the transactions of the block about to be replaced, so that nothing but a
+                # request parked across the reorg can touch the per-height caches afterwards
+                plan.append(dict(op='c_query', c=rng.randrange(nclients),
+                                 m=rng.choice(['get_tsc_merkle', 'get_tsc_merkle', 'get_merkle']),
+                                 back=rng.randrange(d), h=0, pos=rng.randrange(400), merkle=True,
+                                 tt=rng.randrange(3), at=round(max(0.01, tq - rng.uniform(0.0, 1.0)), 2),
+                                 alt=rng.choice(['first', 'first', 'first', 'rotate']),
+                                 rep=rng.choice([30, 45, 60]), every=rng.choice([0.15, 0.2, 0.3])))
+            plan.append(dict(op='fork', depth=d, extra=1, ntx=[big() for _ in range(d)] + [2], remine=0.0,
+                             at=tq, seed=rng.getrandbits(32)))
+            plan.append(dict(op='settle'))
+        return case
 
 
 SUBS = SubsFamily()
